@@ -340,6 +340,12 @@ def check_case(case, ctx):
     except Exception as e:
         ctx.count('build_failed:' + type(e).__name__)
         return
+    if case.get('edited'):
+        with monitor.suspended():
+            case = dict(case, edits_applied=netgen.random_edits(c, rng))
+            CUR['case'] = case
+            net = refsem.net_of(c)
+        ctx.count('edited_circuits')
     sh = refsem.structural_hash(net)
     labels = list(net.gates)
     users = {}
@@ -426,7 +432,7 @@ def gen_case(rng, spec):
     shape = rng.choice(netgen.SHAPES)
     net = netgen.rand_net(rng, shape=shape, max_in=5, max_g=spec.get('max_g', 14), max_arity=4, const_operands=False)
     return {'kind': 'random', 'shape': shape, 'net': netgen.describe(net), 'rseed': rng.getrandbits(32),
-            'shuffle': rng.random() < 0.3}
+            'shuffle': rng.random() < 0.3, 'edited': rng.random() < 0.3}
 
 
 def run_shard(spec, ctx):
